@@ -19,12 +19,12 @@ func TestC06HTTPUnpack(t *testing.T) { vt.RunHostileProto(t, specHTTP()) }
 // TestC06HTTPAnnounce: the HTTP protocol announces sizes in text: a
 // Content-Length above the read limit, or a header line that never ends.
 func TestC06HTTPAnnounce(t *testing.T) {
-	rec := vt.NewRec(t, "C06", "http/announce", "HTTP-style frames whose Content-Length announces more than the read limit (limit+1 .. 2^28) with a short body, and header / request lines longer than the read limit; oracle: allocation around the Unpack <= 16*limit + 16*len(input) + 24 MiB, an error is returned, and for an over-limit Content-Length nothing after the header block is consumed; every case non-trivial; distinct by input")
+	rec := vt.NewRec(t, "C06", "http/announce", "HTTP-style frames whose Content-Length announces more than the read limit (limit+1 .. 2^28) with a short body, header / request lines longer than the read limit, floods of unknown headers and of repeated headers the protocol interprets itself (X-Seq, X-Mtype, Content-Type, Content-Length, X-Content-Encoding); oracle: allocation around the Unpack <= 16*limit + 16*len(input) + 24 MiB, an error is returned, no more than 2*limit + 256 bytes of an over-limit header block are consumed, and for an over-limit Content-Length nothing after the header block is consumed; every case non-trivial; distinct by input")
 	spec := specHTTP()
 	rapid.Check(t, func(rt *rapid.T) {
 		vt.Init()
 		limit := rapid.SampledFrom(vt.HostileLimits).Draw(rt, "limit")
-		kind := rapid.SampledFrom([]string{"content-length", "long-line", "many-headers"}).Draw(rt, "kind")
+		kind := rapid.SampledFrom([]string{"content-length", "long-line", "many-headers", "repeated-known-header"}).Draw(rt, "kind")
 		first := rapid.SampledFrom([]string{"POST /a/b HTTP/1.1\r\n", "HTTP/1.1 200 OK\r\n", "HTTP/1.1 299 Business Error\r\n"}).Draw(rt, "first")
 		var in []byte
 		switch kind {
@@ -37,8 +37,18 @@ func TestC06HTTPAnnounce(t *testing.T) {
 				n = 1 << 20
 			}
 			in = []byte(first + "X-Long: " + strings.Repeat("h", n))
+		case "repeated-known-header":
+			// a header the protocol itself interprets, repeated until the header block exceeds the limit
+			line := rapid.SampledFrom([]string{"X-Seq: 7\r\n", "X-Mtype: 1\r\n", "Content-Type: application/json\r\n", "Content-Length: 3\r\n", "X-Content-Encoding: gzip-5\r\n"}).Draw(rt, "knownline")
+			n := (int(limit)*8)/len(line) + 40
+			var b bytes.Buffer
+			b.WriteString(first)
+			for i := 0; i < n; i++ {
+				b.WriteString(line)
+			}
+			in = b.Bytes()
 		default:
-			n := (int(limit)*3)/20 + 5
+			n := (int(limit)*8)/20 + 40
 			var b bytes.Buffer
 			b.WriteString(first)
 			for i := 0; i < n; i++ {
@@ -56,6 +66,13 @@ func TestC06HTTPAnnounce(t *testing.T) {
 		}
 		if err == nil {
 			rt.Fatalf("http: a message exceeding the read limit %d (%s) was accepted", limit, kind)
+		}
+		if kind != "content-length" {
+			// a header block that exceeds the read limit must be refused once the limit is
+			// passed: the receiver must not keep consuming what belongs to one message
+			if slack := 2*int(limit) + len(first) + 256; consumed > slack { // line terminators are consumed but not buffered
+				rt.Fatalf("http: under read limit %d the receiver consumed %d bytes of one message's header block (%s) before giving up", limit, consumed, kind)
+			}
 		}
 		if kind == "content-length" {
 			if hdrEnd := bytes.Index(in, []byte("\r\n\r\n")) + 4; consumed > hdrEnd {
